@@ -232,6 +232,13 @@ theorem pairCtx_gen {E : Env} {X Y Z : Nat} (hE : EnvPy E X Y Z) (B : List Versi
       simp [Leaf.beq] at hb
     · cases e; exact hT
     · cases e; exact Or.inl hs
+  notList := by
+    rintro ms (⟨s, o, a', b', c', hm, he⟩ | ⟨a', b', c', he⟩)
+    · cases he
+      simp only [pvOps, List.mem_cons, Prod.mk.injEq, List.mem_nil_iff, or_false] at hm
+      rcases hm with ⟨_, rfl⟩ | ⟨_, rfl⟩ | ⟨_, rfl⟩ | ⟨_, rfl⟩ | ⟨_, rfl⟩ | ⟨_, rfl⟩ <;> simp only [pfvLeafOf] <;> decide
+    · cases he
+      simp only [pfvCompatOf]; decide
   rewrite := by
     rintro ms r hF (⟨s, o, a', b', c', hm, he⟩ | ⟨a', b', c', he⟩) hr
     · cases he
